@@ -50,6 +50,7 @@ def funcs_of(blk, tag="CFG"):
         if l.startswith(tag + ".FUNC "):
             d = {"entry": int(field(l, "entry")), "exit": int(field(l, "exit")),
                  "nodes": parse_set(field(l, "nodes")), "defs": parse_set(field(l, "defs")),
+                 "args": parse_set(field(l, "args") or "[]"), "rets": parse_set(field(l, "rets") or "[]"),
                  "labels": [unhx(x) for x in field(l, "labels").strip("[]").split(",") if x]}
             out.append(d)
     return out
@@ -284,6 +285,25 @@ def check_liveness(prog, funcs, facts, ecalls):
         if facts.n[i]["lo"] != lo[i]:
             return (f"live-out of node {i} is {sorted(facts.n[i]['lo'])}, the least solution of the equations "
                     f"is {sorted(lo[i])}")
+    # inferred interface of every function: arguments = argument registers live at its entry (read
+    # before written on some path); returns = argument/return registers some caller reads after a
+    # call (live after one of its call sites)
+    label_func = {lb: f for f in funcs for lb in f["labels"]}
+    for f in funcs:
+        want_args = lo[f["entry"]] & ARGS
+        if f["args"] != want_args:
+            return (f"function at node {f['entry']}: inferred arguments {sorted(f['args'])}, the registers read "
+                    f"before written are {sorted(want_args)}")
+        after = set()
+        for n in prog.nodes:
+            if n["kind"] in ("JumpLink", "Branch") and label_func.get(n.get("name")) is f and \
+                    (n["kind"] == "Branch" or n.get("rd") in (0, 1)):
+                after |= lo[n["i"]] if "i" in n else set()
+        after |= li[f["exit"]]
+        want_rets = after & ARGS
+        if f["rets"] != want_rets:
+            return (f"function at node {f['entry']}: inferred return registers {sorted(f['rets'])}, the callers "
+                    f"read {sorted(want_rets)} after the call")
     return None
 
 
